@@ -29,9 +29,10 @@ VARIABLES l, bad, drift,
           filled,     \* <<dev, sector>> -> sum of the data put into the cache
           pend,       \* the cache miss whose fill is awaited: <<dev, sector>> or <<>>
           lastSum,    \* sum of the data the bottom layer returned last (-1: it failed)
+          via,        \* the read in flight came down through the cache (so `pend` names the drive sector it serves)
           content     \* <<group, drive, sector>> -> sum: what the bottom layer delivered for a sector of a surface the harness
                       \* presents in several containers (ctx.group; C05: flux image and sector dump of the same surface)
-tvars == <<vars, l, bad, drift, ctx, filled, pend, lastSum, content>>
+tvars == <<vars, l, bad, drift, ctx, filled, pend, lastSum, via, content>>
 Ev == TraceLog[l]
 
 \* is this the kind of event the layer below the current one emits?
@@ -51,7 +52,7 @@ KnownViews == IF ctx.kind = "mmb" THEN {View("mmb", 80, 10, h) : h \in 0..510}
               ELSE {View(ctx.kind, ctx.cyl, ctx.spt, h) : h \in (IF ctx.kind = "plain1" THEN {0} ELSE {0, 1})}
 \* the sector of the drive this bottom-layer read serves (known while a cache miss is being filled)
 ContentKey == <<ctx.group, pend[1], pend[2]>>      \* group, drive (in order of first use), sector
-Keyed == ctx.group # "" /\ Len(pend) = 2
+Keyed == ctx.group # "" /\ Len(pend) = 2 /\ via
 SameContent(sum) == (Keyed /\ ContentKey \in DOMAIN content) => content[ContentKey] = sum
 FieldsOK(ev) ==
     CASE ev.e = "body" -> BodyGuard([start |-> ev.start, last |-> ev.last], ev.sec)
@@ -79,7 +80,7 @@ InsideNow == (top.kind = "body" /\ layer \in {"cache", "dev"}) =>
                 (cur >= vol.origin /\ cur < vol.origin + vol.len /\ RInFile(file, cur - vol.origin))
 TInit == /\ v = [skip |-> 0, take |-> 0, leave |-> 0, total |-> 0] /\ flen = 0 /\ vol = [origin |-> 0, len |-> 0] /\ file = [start |-> 0, last |-> 0]
          /\ cache = <<>> /\ layer = "idle" /\ cur = 0 /\ top = NoTop /\ res = [ok |-> FALSE, pos |-> FAIL]
-         /\ l = 1 /\ bad = {} /\ drift = {} /\ ctx = [kind |-> "none", cyl |-> 0, spt |-> 0, vols |-> <<>>, group |-> ""] /\ content = <<>> /\ filled = <<>> /\ pend = <<>> /\ lastSum = 0 - 1
+         /\ l = 1 /\ bad = {} /\ drift = {} /\ ctx = [kind |-> "none", cyl |-> 0, spt |-> 0, vols |-> <<>>, group |-> ""] /\ content = <<>> /\ via = FALSE /\ filled = <<>> /\ pend = <<>> /\ lastSum = 0 - 1
 TNext == /\ l <= Len(TraceLog) /\ l' = l + 1
          /\ LET ev == Ev
                 known == ev.e \in {"ctx", "cfill"} \/ KindExpected(ev)
@@ -93,6 +94,8 @@ TNext == /\ l <= Len(TraceLog) /\ l' = l + 1
                          ELSE IF ev.e = "cfill" THEN [k \in DOMAIN filled \cup {<<ev.dev, ev.sector>>} |-> IF k = <<ev.dev, ev.sector>> THEN ev.sum ELSE filled[k]]
                          ELSE filled
             /\ pend' = IF ev.e = "cread" /\ ev.hit = 0 THEN <<ev.dev, ev.sector>> ELSE IF ev.e \in {"cfill", "ctx", "body"} THEN <<>> ELSE pend
+            /\ via' = IF ev.e = "cread" THEN ev.hit = 0
+                      ELSE IF ev.e \in {"blk", "fread", "ctx"} \/ (ev.e = "vread" /\ ev.pos < 0) THEN FALSE ELSE via
             /\ lastSum' = IF ev.e = "blk" THEN (IF ev.got = 256 THEN ev.sum ELSE 0 - 1)
                           ELSE IF ev.e = "fread" THEN (IF ev.found = 1 THEN ev.sum ELSE 0 - 1)
                           ELSE IF ev.e = "vread" /\ ev.pos < 0 THEN 0 - 1 ELSE lastSum
